@@ -564,3 +564,26 @@ example : timerCarriesGeneration Generated.shape_common_Deadline_SetDeadline = t
 example : callbackChecksGeneration Generated.shape_common_Deadline_timeoutFor = true := by decide
 
 end DeadlineGen
+
+/-! ### tie: the listen worker is counted only when it is started (transport/client.go)
+
+`Model/Lifecycle.lean` has the elected `Close` wait for the workers that were *started*.  In
+`clientHandshakeLocked` the worker is counted (`c.wg.Add(1)`) before the final compare-and-swap; on
+the branch where that swap fails (a `Close` took the state meanwhile) the count is given back before
+returning, and otherwise `go c.listen` follows. -/
+namespace LifecycleShapes
+open Shape
+
+def workerCountedIffStarted (sh : List Item) : Bool :=
+  match find sh (· == ⟨0, "call", "c.wg.Add", "c.wg.Add(1)"⟩) with
+  | some i =>
+    sh[i + 1]? == some ⟨0, "if", "", "!c.state.CompareAndSwap(clientStateHandshaking, clientStateOpen)"⟩ &&
+    sh[i + 2]? == some ⟨1, "call", "c.wg.Done", "c.wg.Done()"⟩ &&
+    (match sh[i + 3]? with | some r => r.depth == 1 && r.kind == "return" | none => false) &&
+    sh[i + 4]? == some ⟨0, "go", "", "c.listen"⟩ &&
+    (positions sh (fun it => it.head == "c.wg.Add")).length == 1
+  | none => false
+
+example : workerCountedIffStarted Generated.shape_transport_Client_clientHandshakeLocked = true := by decide
+
+end LifecycleShapes
